@@ -2,7 +2,7 @@ import Driver.Util
 import AwsVerif.Model.Heap
 /-! Driver for the priority-queue model (component `heap`).
 
-Ops: `init dyn <default_size> <isz> <nh>` | `init static <cap> <isz> <nh>` | `push <key>` |
+Ops: `cmp three|bool|diff|lazy` (comparator style of the harness; all are `natCmp`) | `init dyn <default_size> <isz> <nh>` | `init static <cap> <isz> <nh>` | `push <key>` |
 `pushref <key> h<k>` | `pop` | `top` | `remove h<k>` | `clear`.
 After every op: the `P` result line, `P live` (uid under every in-queue handle), `W heap`, `W idx`. -/
 namespace Driver.HeapD
@@ -63,6 +63,9 @@ def doOp (s : St) (name : String) (op : Op) : Option St × List String :=
 
 def step (s : Option St) (t : List String) : Option St × List String :=
   match s, t with
+  | _, ["cmp", style] =>
+    -- comparator style of the harness: every style is `pred(a, b) > 0 ↔ a > b` on keys, i.e. `natCmp`
+    if style == "three" ∨ style == "bool" ∨ style == "diff" ∨ style == "lazy" then (s, []) else (s, ["bad-op"])
   | _, ["init", kind, n, isz, nh] =>
     match parseSize? n, isz.toNat?, nh.toNat? with
     | some n, some isz, some nh =>
